@@ -104,6 +104,13 @@ impl Message for Bc2 {
     type Response = ();
 }
 
+/// Topic message of the broker (two topics); carries the id of the publication.
+#[derive(Clone)]
+pub struct Tp<const T: usize>(pub MsgId);
+impl<const T: usize> Message for Tp<T> {
+    type Response = ();
+}
+
 /// Per-actor configuration of callback scripts (looked up by the actor task's name).
 #[derive(Clone, Debug, Default, Serialize, Deserialize)]
 pub struct ActorScripts {
@@ -125,6 +132,8 @@ pub struct World {
     pub bcasts: HashMap<String, i64>,
     /// unit broadcast copies handled per actor name
     pub units: HashMap<String, i64>,
+    /// nested operations (subscribe / publish) started per actor name
+    pub nested: HashMap<String, i64>,
     /// harness-controlled streams per actor name
     pub streams: HashMap<String, std::sync::Arc<std::sync::Mutex<StreamState>>>,
 }
@@ -246,6 +255,29 @@ impl<const K: usize> H<K> {
                 }
                 ev(json!({"ev": "eff", "task": me, "e": e.e, "n": 0, "s": "", "res": "ok"}));
             }
+            "subscribe" => {
+                WORLD.with(|w| *w.borrow_mut().nested.entry(me.clone()).or_insert(0) += 1);
+                let r = match e.n {
+                    1 => ctx.subscribe::<Tp<1>>().await,
+                    _ => ctx.subscribe::<Tp<2>>().await,
+                };
+                ev(json!({"ev": "eff", "task": cur_task(), "e": "subscribe", "n": e.n, "res": if r.is_ok() {"ok"} else {"err"}}));
+            }
+            "publish" => {
+                let n = WORLD.with(|w| {
+                    let mut w = w.borrow_mut();
+                    let n = w.nested.entry(me.clone()).or_insert(0);
+                    *n += 1;
+                    *n
+                });
+                // (subscribe counts as a nested operation too: keep the counter in step with the spec)
+                let m = (me.clone(), 2000 + n);
+                let r = match e.n {
+                    1 => ctx.publish(Tp::<1>(m)).await,
+                    _ => ctx.publish(Tp::<2>(m)).await,
+                };
+                ev(json!({"ev": "eff", "task": cur_task(), "e": "publish", "n": e.n, "res": if r.is_ok() {"ok"} else {"err"}}));
+            }
             "panic" => {
                 ev(json!({"ev": "eff", "task": me, "e": "panic", "n": 0, "res": "ok"}));
                 panic!("scripted panic");
@@ -366,6 +398,11 @@ impl<const K: usize> Handler<Bc> for H<K> {
 impl<const K: usize> Handler<Bc2> for H<K> {
     async fn handle(&mut self, ctx: &mut Context<Self>, msg: Bc2) {
         self.work(ctx, Desc { m: (msg.0, msg.1), scr: vec![], src: "parent" }).await;
+    }
+}
+impl<const K: usize, const T: usize> Handler<Tp<T>> for H<K> {
+    async fn handle(&mut self, ctx: &mut Context<Self>, msg: Tp<T>) {
+        self.work(ctx, Desc { m: msg.0, scr: vec![], src: "broker" }).await;
     }
 }
 impl<const K: usize> Handler<CMsg> for H<K> {
